@@ -34,8 +34,11 @@ contract(M, 'dfa_complement', {'D': 'DFA'}, returns='DFA', requires=['dfa_wf(D)'
          theories=['word', 'dfa'], props=['C14', 'C19', 'C12'])
 
 contract(M, 'fresh_state', {'Q': 'Set[State]', 'hint': 'Atom'}, returns='State', defaults={'hint': "'P'"},
-         requires=[], ensures=['result not in Q', 'any(i >= 1 and result == hint_index_name(hint, i) for i in ints())'], loops={1: {'invariant': ['index >= 1']}},
-         theories=['word', 'naming'], props=['C14', 'C10'], note='partial correctness (termination not proved: needs finiteness of Q)')
+         requires=[], ensures=['result not in Q', 'any(i >= 1 and result == hint_index_name(hint, i) for i in ints())'], type_invariants=['fin(Q)'],
+         loops={1: {'invariant': ['index >= 1'], 'decreases': ['card(Q - unnamed_from(hint, index))'],
+                    'body_end': ['q == hint_index_name(hint, index - 1)', 'q in Q', 'Q - unnamed_from(hint, index) == (Q - unnamed_from(hint, index - 1)) - {q}']}},
+         theories=['word', 'naming'], props=['C14', 'C10'],
+         note='total correctness: every unsuccessful round removes the name just tried from the finitely many names hint+k (k >= index) that are taken in Q; fin(Q) is the type invariant of Python sets')
 
 _R_COMMON = ['V <= D.Q', 'discovered <= D.Q', 'V <= Reach(D, q)',
              'implies(depth == 0, discovered <= Reach(D, q))', 'implies(depth != 0, discovered <= Reach1(D, q))',
@@ -346,3 +349,23 @@ contract(M, 'dfa_minimize', {'D': 'DFA'}, returns='DFA', requires=['dfa_wf(D)'],
                                         'all(table[(min(%s, %s), max(%s, %s))] for a in done4)' % (_succ('i'), _succ('j'), _succ('i'), _succ('j'))]}},
          theories=['word', 'dfa', 'nerode'], props=['C04', 'C19'],
          note='the table-filling fixpoint is proved exact: at loop exit table[i, j] holds iff q[i] and q[j] are Myhill-Nerode equivalent (soundness of every marking by dist-step, completeness by the leastness instance for the unmarked relation); the fixpoint loop terminates (measure: number of marked pairs); the class assembly dfa_from_table is assumed at its contract')
+
+# ---------------------------------------------------------------------------------------------- C12: structure check of the product exercises
+_MD = 'gambatools.notebook_dfa'
+contract(_MD, 'extract_states', {'q': 'State'}, returns='(State,State)', verify=False, ensures=['result == (prod_fst(q), prod_snd(q))'], theories=['naming'], props=['C12'],
+         note='string slicing and split: the two labels are uninterpreted functions of the name; nothing about them is assumed')
+_PS = '(prod_fst(%s) in D1.Q and prod_snd(%s) in D2.Q)'
+_PT = 'implies((q, a) in answer.delta and (q, a) in D.delta, answer.delta[(q, a)] == D.delta[(q, a)])'
+_C1 = 'all(' + (_PS % ('x', 'x')) + ' for x in %s)'
+_C2 = '(D.Sigma == answer.Sigma and answer.q0 == D.q0)'
+_C3 = 'all(' + _PT + ' for (q, a) in %s)'
+contract(_MD, 'check_product_automaton', {'D': 'DFA', 'D1': 'DFA', 'D2': 'DFA', 'answer': 'DFA'}, returns='List[Text]',
+         ensures=['(len(result) == 0) == (%s and %s and %s and answer.F == D.F)' % (_C1 % 'answer.Q', _C2, _C3 % 'keys(answer.delta)')],
+         types={'feedback': 'List[Text]'},
+         loops={1: {'ghost': 'done1', 'invariant': ['(len(feedback) == 0) == %s' % (_C1 % 'done1')]},
+                2: {'ghost': 'done2', 'invariant': ['(len(feedback) == 0) == (%s and %s and %s)' % (_C1 % 'answer.Q', _C2, _C3 % 'done2')]},
+                3: {'ghost': 'done3', 'invariant': ['(len(feedback) == 0) == (%s and %s and %s and done3 == set_empty())' % (_C1 % 'answer.Q', _C2, _C3 % 'keys(answer.delta)')]},
+                4: {'ghost': 'done4', 'invariant': ['(len(feedback) == 0) == (%s and %s and %s and D.F <= answer.F and done4 == set_empty())' % (_C1 % 'answer.Q', _C2, _C3 % 'keys(answer.delta)')]}},
+         theories=['naming'], props=['C12', 'C19'],
+         note='no feedback exactly when every state of the answer reads as a pair of operand states, alphabet and initial state are those of the reference product, '
+              'the transitions agree with the reference wherever both are defined, and the accepting states coincide')
